@@ -130,11 +130,12 @@ PROPERTIES = {
                        "divisor n (the value n, i.e. the possibly unrepresentable pattern n * 2^f): checked_rem_int, `fixed % integer`, wrapping_ / "
                        "overflowing_rem_int, overflowing_ / wrapping_ / plain rem_euclid_int — for the signed families the bit-level computation "
                        "(wrapping_abs, shift, mask, or) is proved equal to a mod |n * 2^f| reduced modulo 2^w with the exact overflow flag (unit remint); "
-                       "div_euclid / checked_ / wrapping_ / overflowing_div_euclid with a fixed-point divisor (unit diveuclid): for the unsigned families "
+                       "div_euclid / checked_ / wrapping_ / overflowing_div_euclid with a fixed-point divisor and their _int forms with an integer divisor (unit diveuclid): for the unsigned families "
                        "unconditionally, for the signed families OUTSIDE the region of the known finding F-C07-div-euclid (plain quotient representable, "
                        "correction constant representable), where the result is the Euclidean quotient reduced modulo 2^w with the exact overflow flag; "
                        "Kani re-checks all forms on 8-bit layouts outside that region and shows the region reachable",
-        "bounded_parts": ["saturating_div_euclid (closure), the div_euclid_int family and the signed checked_rem_euclid_int (closure inside Option::map): 8-bit layouts only (Kani)"],
+        "bounded_parts": ["saturating_div_euclid (closure) and the signed checked_rem_euclid_int (closure inside Option::map): 8-bit layouts only (Kani); "
+                          "inside the region of F-C07-div-euclid the signed Euclidean-division forms are not under a Verus contract"],
         "assumptions": ["R15: the non-short-circuit `overflow | overflow2` on two bool locals in overflowing_div_euclid is rendered as `||` (Verus has no `|` on bool)"],
     },
     "C10": {
